@@ -116,10 +116,16 @@ FIXED = [
     "A 4 ; w 3 , w 3 , w 1 , c , f 1 , c , w 3 , s 3 3 , s 3 2 , f 3 , w 1 , n",
     "A 4 ; c , c , c , f 2 , c , f 1 , c , s 3 9 , c , f 3 , w 9 , g 8",
     "A 2 ; c , u 1 0 , u 1 1 , u 1 5 , c , u 1 1 , u 2 5 , u 2 3 , j 2 , u 2 4 , v 2 , u 2 4 , k 2",
+    # finding rank-int-max-overflow (C17_rank_int_max_refuted): newrank + 1 overflows in xstream_update_max_xstreams
+    # (the two crashing cases must not be adjacent: vlib.differential mis-attributes a crash on the first case of a
+    #  restarted harness run whose stdout is empty)
+    "A 4 ; w %d" % INT_MAX,
     # the corruption that the primary-at-head invariant excludes (white box only)
     "X 4 ; N 5 , N 7 , C 1 3 , R 1",
     "X 4 ; N -1 , N -1 , N 5 , R 0 , N -1 , C 2 0 , R 3",
     "X 4 ; N 2 , N 1 , N 0 , R 1 , R 2 , R 0 , N -1",
+    "A 4 ; c , s 1 %d" % INT_MAX,
+    "A 4 ; w %d , c , n" % (INT_MAX - 1),
 ]
 
 
@@ -185,7 +191,7 @@ def history_stage(rep, sc, lib, cov, tier, seed):
     hexe = os.path.join(sc, "harness_c17")
     drv = os.path.join(vlib.BUILD, "drv_c17")
     rng = random.Random(seed * 7919 + 17)
-    cases = [c for c in FIXED if c.startswith("A")]
+    cases = [c for c in FIXED if c.startswith("A") and str(INT_MAX) not in c]
     cases += gen_a_random(rng, 100 if tier == "quick" else 3000, 16)
     # lifecycle-heavy sequences: join / revive / work / free in all short orders on one stream
     life = ["j 1", "v 1", "k 1", "f 1", "t 1"]
